@@ -1,7 +1,7 @@
 (* RFC 8945 section 4.3 ("TSIG Variables and Coverage") and 5.3.1 (multi-message exchanges)
    written down from the RFC text, independently of dns/tsig.py and of coq/Model/TsigM.v:
    nothing here refers to the model's functions.  Octets are Z, octet strings list Z. *)
-From Coq Require Import ZArith List Lia.
+From Coq Require Import ZArith List Bool Lia.
 Import ListNotations.
 Open Scope Z_scope.
 
